@@ -269,8 +269,21 @@ def cond_extra(ctx: Ctx):
     """crafted families in rotation (every family gets its turn even in a short run)"""
     i = getattr(ctx, "_extra_turn", 0)
     ctx._extra_turn = i + 1
-    fams = [eq_extra, c03_extra, cond_nest_extra, shape_extra, sign_extra, cond_nest_extra]
+    fams = [eq_extra, intpow_extra, c03_extra, cond_nest_extra, shape_extra, sign_extra, cond_nest_extra]
     return fams[(i + ctx.seed) % len(fams)](ctx)
+
+
+def intpow_extra(ctx: Ctx):
+    """powers of integer literals in the places where a printer that computes them in `int` goes wrong: under an integer
+    numerator, beyond INT_MAX, as a factor and as an exponent's base"""
+    rng = ctx.rng
+    b1, b2 = rng.choice([2, 3, 10]), rng.choice([1291, 46341, 70000, 100000])
+    n1, n2 = rng.choice([2, 3, 4]), rng.choice([2, 3])
+    text = (f"states(x=0.5, y=-0.25)\nparameters(a=0.75)\n"
+            f"frac = {rng.choice([1, 3, 7])}/{b1}**{n1}\nbig = {b2}**{n2}*1e-12\n"
+            f"dx_dt = a*frac - x/{b1}**{n1} + big*1e-3\ndy_dt = -y*(x/{rng.choice([2, 5])}**{n1}) + {b1}**{n1}*a\n")
+    pts = [{"x": rng.uniform(-2, 2), "y": rng.uniform(-2, 2), "a": rng.uniform(0.5, 2), "t": 0.5, "dt": 0.01} for _ in range(3)]
+    return {"text": text, "points": pts}
 
 
 def eq_extra(ctx: Ctx):
@@ -424,6 +437,53 @@ def model_has_literal_quotient(exprs) -> bool:
     return any(walk(e) for e in exprs)
 
 
+def model_to_c(e, loose=False):
+    """the model's own expression read the way the C printer writes it: an integer literal is a C `int`, `Mod` is `fmod`
+    (a power, a function call and a float literal are doubles); None when the expression has no such direct reading
+    (ContinuousConditional is expanded by gotranx before printing)"""
+    tag = e[0]
+    if tag == "num":
+        # the reference tree keeps mantissa and exponent, not the spelling: 506500 and 5065e2 are both (5065, 2).
+        # strict: only exponent 0 is an integer literal; loose: every integer-valued literal is (both readings are tried)
+        if e[2] == 0 or (loose and e[2] > 0):
+            return ("int", e[1] * 10 ** e[2])
+        return e
+    if tag in ("var", "pi", "int"):
+        return e
+    if tag == "ccond":
+        return None
+    if tag == "mod":
+        a, b = model_to_c(e[1], loose), model_to_c(e[2], loose)
+        return None if a is None or b is None else ("fmod", a, b)
+    head, rest = ((tag, e[1]), e[2:]) if tag in ("fn", "rel") else ((tag,), e[1:])
+    out = [model_to_c(x, loose) for x in rest]
+    return None if any(x is None for x in out) else head + tuple(out)
+
+
+def model_c_value(rm, name, base: dict, mode: str, table=None, loose=False):
+    """value of the model quantity `name` under the literal C reading of the model text (mode as in CEval), or None"""
+    try:
+        ev = CEval(mode)
+        env = {k: mpf(v) for k, v in base.items()}
+        if table is not None:
+            ce = model_to_c(table[name], loose)
+            return None if ce is None else mpf(ev.ev(ce, env)[0])
+        for n in rm.order:
+            ce = model_to_c(rm.assigns[n], loose)
+            if ce is None:
+                if n == name:
+                    return None
+                continue
+            try:
+                env[n] = mpf(ev.ev(ce, env)[0])
+            except KeyError:
+                if n == name:
+                    return None
+        return env.get(name)
+    except Exception:
+        return None
+
+
 def run_c_ir(stmts, inputs, mode):
     """execute a translated C function body at 50 digits; returns {slot: value}"""
     ev = CEval(mode)
@@ -569,9 +629,9 @@ def c02_case(ctx: Ctx, case: dict):
             ref = hp.ev(table[nme], {})
             if sexp.agrees(arr[i], ref, abs(ref) * sexp.U * 4) == "bad":
                 f = funcs.get(fn)
-                cls = classify_c(f, i, {}, ref)
-                if cls.startswith("integer-arithmetic") and cls != "integer-arithmetic-elsewhere" and not model_has_literal_quotient([table[nme]]):
-                    cls = cls.replace("integer-arithmetic", "integer-arithmetic-elsewhere")
+                cls = classify_c(f, i, {}, ref, got=arr[i],
+                                 model_vals={"c": [model_c_value(rm, nme, {}, "c", table=table, loose=lo) for lo in (False, True)],
+                                             "has_mod": _has_tag(table[nme], ("mod",))})
                 ctx.violate(f"C02/c/{cls}" if cls in ("integer-arithmetic", "fmod-sign", "integer-arithmetic+fmod-sign") else f"C02/c/{fn}/default/{cls}",
                             f"{fn}: slot {i} = {arr[i]!r} but {nme} is declared as {oracle.fmt(ref)}", case=case)
                 break
@@ -636,29 +696,38 @@ def c02_case(ctx: Ctx, case: dict):
                 ctx.count("bad_values_in_all_real_bodies", len(bad))
             for (name, got, r_) in bad:
                 f = funcs.get(fn)
-                cls = classify_c(f, slots[name], {"states": s, "parameters": p, "t": pt["t"], "dt": pt["dt"]}, r_, spread.get(name, mpf(0)))
+                mv_ = None
+                if name in rm.assigns:
+                    mv_ = {"c": [model_c_value(rm, name, rm.base(pt), "c", loose=lo) for lo in (False, True)],
+                           "has_mod": any(_has_tag(e_, ("mod",)) for e_ in rm.assigns.values())}
+                cls = classify_c(f, slots[name], {"states": s, "parameters": p, "t": pt["t"], "dt": pt["dt"]}, r_, spread.get(name, mpf(0)),
+                                 got=got, model_vals=mv_)
                 if cls == "ill-conditioned":
                     ctx.count("ill_conditioned")
                     continue
-                if cls.startswith("integer-arithmetic") and cls != "integer-arithmetic-elsewhere" and not model_has_literal_quotient(list(rm.assigns.values())):
-                    # no quotient of integer constants anywhere in the model text: not the recorded finding
-                    cls = cls.replace("integer-arithmetic", "integer-arithmetic-elsewhere")
+                if mv_ is None and cls.startswith("integer-arithmetic") and not model_has_literal_quotient(list(rm.assigns.values())):
+                    # a scheme step (no single model expression to read): fall back to the structural test
+                    cls = cls + "-not-in-model-text"
                 key = f"C02/c/{cls}" if cls in ("integer-arithmetic", "fmod-sign", "integer-arithmetic+fmod-sign") else f"C02/c/{fn}/value/{cls}"
                 ctx.violate(key, f"{fn} slot {slots[name]} = {oracle.fmt(got)} but the model defines {oracle.fmt(r_)} ({name})",
                             case={**case, "points": [pt], "stiff": stiff})
                 return
 
 
-def classify_c(f, slot, inputs, ref, spread=mpf(0)):
+def classify_c(f, slot, inputs, ref, spread=mpf(0), got=None, model_vals=None):
     """why does a compiled C value differ?  50-digit evaluation of the translated body with C typing,
-    with integers promoted, and with floored fmod."""
+    with integers promoted, and with floored fmod.  `model_vals`: the same three evaluations of the *model's own*
+    expression read literally as C (`model_c_value`).  The recorded findings (integer literals are C ints; Mod is
+    fmod) are exactly the disagreements that this literal reading of the model text reproduces: if the compiled value
+    is not what the model text says under C typing, the C text contains integer arithmetic (or an fmod) that the model
+    does not — something else, reported under a key of its own."""
     if f is None or any("UNTRANSLATABLE" in o for o in f.other):
         return "unclassified"
     try:
         inputs = dict(inputs)
         inputs.setdefault("t", 0.0)
         vals = {}
-        for mode in ("c", "real", "floored", "litquot"):
+        for mode in ("c", "real", "floored"):
             vals[mode] = run_c_ir(f.stmts, inputs, mode).get(slot)
     except Exception:
         return "unclassified"
@@ -668,15 +737,33 @@ def classify_c(f, slot, inputs, ref, spread=mpf(0)):
 
     if close(vals["c"]):
         return "ill-conditioned"
+    int_needed = not close_pair(vals["c"], vals["real"])
     if close(vals["real"]):
-        # the recorded finding is the quotient of integer constants; integer arithmetic anywhere else is something new
-        return "integer-arithmetic" if close(vals["litquot"]) else "integer-arithmetic-elsewhere"
-    if close(vals["floored"]):
-        return "fmod-sign" if close_pair(vals["c"], vals["real"]) else "integer-arithmetic+fmod-sign"
-    return "other"
+        cls = "integer-arithmetic"
+    elif close(vals["floored"]):
+        cls = "integer-arithmetic+fmod-sign" if int_needed else "fmod-sign"
+    else:
+        return "other"
+    if "fmod" in cls and model_vals is not None and not model_vals.get("has_mod", True):
+        return cls + "-not-in-model-text"       # an fmod the model text does not ask for
+    if int_needed and model_vals is not None and got is not None:
+        # is the compiled value what the model text says when its integer literals are read as C ints?
+        try:
+            g = mpf(float(got))
+        except Exception:
+            g = None
+        def same(mc):
+            return (mc is not None and g is not None and
+                    ((mpmath.isnan(mc) and mpmath.isnan(g)) or (mpmath.isfinite(mc) and mpmath.isfinite(g) and
+                                                                abs(mc - g) <= 256 * spread + mpf(2) ** -40 * abs(g) + mpf("1e-300"))))
+        if not any(same(mc) for mc in model_vals.get("c", [])):
+            return cls + "-not-in-model-text"
+    return cls
 
 
 def close_pair(a, b):
+    if a is not None and b is not None and mpmath.isnan(a) and mpmath.isnan(b):
+        return True
     return a is not None and b is not None and mpmath.isfinite(a) and mpmath.isfinite(b) and abs(a - b) <= mpf(2) ** -40 * abs(a)
 
 
